@@ -141,12 +141,22 @@ func (r *UnifiedMemoryModelRegistry) unifyModelsAsync(ctx context.Context, endpo
 		}
 	}
 
+	// Unify what the endpoint lists now: unification goroutines are not ordered, and a later
+	// RegisterModels or RemoveEndpoint may already have superseded the listing this one was
+	// started for. Working from the registry's current listing makes every run converge on it.
+	if current, cerr := r.MemoryModelRegistry.GetModelsForEndpoint(context.Background(), endpointURL); cerr == nil {
+		models = current
+	}
+
 	// Unify all models for this endpoint
 	unifiedModels, err := r.unifier.UnifyModels(ctx, models, endpoint)
 	if err != nil {
 		r.logger.ErrorWithEndpoint(endpoint.Name, "Failed to unify models", err)
 		return
 	}
+
+	// Drop this endpoint from unified models it no longer lists
+	r.pruneStaleSources(endpointURL, unifiedModels)
 
 	// Group unified models by ID for merging
 	modelGroups := make(map[string][]*domain.UnifiedModel)
@@ -190,6 +200,59 @@ func (r *UnifiedMemoryModelRegistry) unifyModelsAsync(ctx context.Context, endpo
 	}
 
 	// r.logger.InfoWithEndpoint(" ", endpointUrl, "models", len(unifiedModels))
+}
+
+// pruneStaleSources removes endpointURL as a source from every globally unified model that is
+// not part of the endpoint's current unified listing, so a replaced (shorter) listing does not
+// leave the endpoint attributed to models it stopped reporting. Caller holds unificationMutex.
+func (r *UnifiedMemoryModelRegistry) pruneStaleSources(endpointURL string, current []*domain.UnifiedModel) {
+	keep := make(map[string]struct{}, len(current))
+	for _, unified := range current {
+		keep[unified.ID] = struct{}{}
+	}
+
+	r.globalUnified.Range(func(id string, model *domain.UnifiedModel) bool {
+		if _, listed := keep[id]; listed {
+			return true
+		}
+
+		// capture names before mutation, as RemoveEndpoint does
+		sourceEndpoints := make([]domain.SourceEndpoint, len(model.SourceEndpoints))
+		copy(sourceEndpoints, model.SourceEndpoints)
+		aliases := make([]domain.AliasEntry, len(model.Aliases))
+		copy(aliases, model.Aliases)
+
+		if !model.RemoveEndpoint(endpointURL) {
+			return true
+		}
+
+		r.modelEndpointSets.Delete(id)
+		for _, sourceEndpoint := range sourceEndpoints {
+			r.modelEndpointSets.Delete(sourceEndpoint.NativeName)
+		}
+		for _, alias := range aliases {
+			r.modelEndpointSets.Delete(alias.Name)
+		}
+
+		if !model.IsAvailable() {
+			r.globalUnified.Delete(id)
+			return true
+		}
+
+		model.DiskSize = model.GetTotalDiskSize()
+		endpointURLs := make([]string, 0, len(model.SourceEndpoints))
+		for _, sourceEndpoint := range model.SourceEndpoints {
+			endpointURLs = append(endpointURLs, sourceEndpoint.EndpointURL)
+		}
+		r.updateEndpointSet(id, endpointURLs)
+		for _, sourceEndpoint := range model.SourceEndpoints {
+			r.updateEndpointSet(sourceEndpoint.NativeName, endpointURLs)
+		}
+		for _, alias := range model.Aliases {
+			r.updateEndpointSet(alias.Name, endpointURLs)
+		}
+		return true
+	})
 }
 
 // updateEndpointSet updates the cached endpoint set for a given model
